@@ -198,6 +198,9 @@ class C10Merge2D(Harness):
                     if tier == "quick" and inplace and axis is None:
                         continue
                     yield f"m2d-S{'x'.join(map(str, shape))}-ax{axis}-i{int(inplace)}", dict(shape=list(shape), axis=axis, inplace=inplace)
+        # the axis given by name, also when an earlier axis has no name (empty string / None)
+        for names in (["a", "b"], ["", "b"], [None, "b"]):
+            yield f"m2d-S2x3-ax1-byname-{names[0]!r}", dict(shape=[2, 3], axis=1, inplace=False, byname=True, names=names)
         if tier == "quick":
             # one 3D instance merging along the last axis (the generic bin-map path with two other axes of equal length)
             yield "m2d-S2x2x2-ax2-i0", dict(shape=[2, 2, 2], axis=2, inplace=False)
@@ -214,10 +217,10 @@ class C10Merge2D(Harness):
         D = len(shape)
         cls = nd.Histogram2D if D == 2 else nd.HistogramND
         h = cls([np.asarray(x["e"][k]) for k in range(D)], np.asarray(nested(x["f"], shape), dtype=float), errors2=np.asarray(nested(x["q"], shape), dtype=float),
-                missed=x["m"], axis_names=["a", "b", "c"][:D])
+                missed=x["m"], axis_names=p.get("names") or ["a", "b", "c"][:D])
         kw = {"inplace": p["inplace"]}
         if p["axis"] is not None:
-            kw["axis"] = p["axis"]
+            kw["axis"] = p["names"][p["axis"]] if p.get("byname") else p["axis"]
         r = E.attempt(h.merge_bins, x["a"], **kw)
         obs = {"after": snapnd(E, h)}
         if isinstance(r, Raised):
